@@ -1,5 +1,5 @@
 (* Harness.v — helpers for the correspondence check (cases.v files written by the Go harness). *)
-Require Import Base.
+Require Import Base TableFacts. (* TableFacts: built by every check, see the file *)
 
 Definition mismatches {C} (chk : C -> bool) (cases : list (nat * C)) : list nat :=
   map fst (filter (fun p => negb (chk (snd p))) cases).
